@@ -3,10 +3,18 @@ from props_common import COMMON_TRUSTED
 CONFIG = {
     "areas": ["json"],
     "lean": ["VProps.C01"],
-    "sources": ["VProps/C01.lean", "VProofs/Order.lean", "VProofs/Sort.lean", "VModel/Json.lean"],
+    "sources": ["VProps/C01.lean", "VProofs/Order.lean", "VProofs/Sort.lean", "VModel/Json.lean",
+                "VProofs/JsonFuel.lean", "VProofs/JsonBytes.lean", "VProofs/JsonStr.lean", "VProofs/JsonNum.lean",
+                "VProofs/JsonNumCompact.lean", "VProofs/JsonCompact.lean", "VProofs/JsonParseStr.lean",
+                "VProofs/JsonParse.lean", "VProofs/JsonSortEmit.lean", "VProofs/JsonParsed.lean",
+                "VProofs/JsonCanon.lean", "VProofs/JsonClosure.lean"],
     "theorems": [
         "V.C01.canon_member_order_irrelevant", "V.C01.canon_keys_strictly_sorted", "V.C01.negzero_is_zero",
         "V.C01.other_literals_kept", "V.C01.numOk_sound", "V.C01.enforced_rejects_leaf", "V.C01.enforced_versions",
+        "V.C01.canonical_eq_spec_general", "V.C01.canonical_eq_spec", "V.C01.canonical_eq_canonicalSpec",
+        "V.C01.canonical_rejects_invalid", "V.C01.canonical_unique", "V.C01.canonical_unique_conv",
+        "V.C01.canonical_output_valid", "V.C01.canonical_idem", "V.C01.encodeCanon_injective",
+        "V.C01.enforced_rejects", "V.C01.enforced_iff",
     ],
     "rule": "type-directed JSON values (depth<=5, keys needing escapes, non-BMP, integer boundaries, fractions/exponents/-0) x "
             "random presentations (whitespace, member order, escape spellings) + malformed stream; an op is non-trivial when "
